@@ -85,6 +85,8 @@ pub fn gen(tier: Tier, rng: &mut Rng) -> Vec<Sx> {
         }
         v.push(Sx::l(vec![Sx::n(0), Sx::n(nk), Sx::l(init), Sx::l(ops)]));
     }
+    // query part: backward-chaining queries whose failed proof attempts derive intermediate facts
+    v.extend(crate::c09::gen_c10_queries(tier, rng));
     v
 }
 
